@@ -220,6 +220,29 @@ theorem str_roundtrip_rule (a : RRule.Args) (r : RRule.Rule) (h : RRule.construc
       RRule.construct (backArgs (RRule.origArgs a r) pa) = .ok r :=
   parse_toStr_constructs_same_rule a r h hsp hne hpr hf o hu hfs hc kw
 
+/-- **the same with the process-wide `calendar.firstweekday()` as an explicit input** (`constructW k`, C01).  `str_roundtrip*`
+    and `str_roundtrip_rule` above are the case `k = 0` (the interpreter's default).  Under `calendar.setfirstweekday(k)` the
+    rule comes back exactly when `r.wkst ≠ 0 ∨ k = 0`: `__str__` omits WKST when `_wkst == 0`, so a Monday-week rule is
+    rebuilt with the ambient week start — known finding D-C13-ambient-wkst, `ambient_wkst_counterexample`.  (The one-line
+    repair, printing `WKST=MO` too, changes the text of every `str(rule)` and `tests/test_rrule.py::testStrAppendRRULEToken`
+    pins that text, so it is listed, not fixed.) -/
+theorem str_roundtrip_rule_ambient (k : Int) (a : RRule.Args) (r : RRule.Rule) (h : RRule.constructW k a = .ok r)
+    (hsp : a.bysetpos ≠ some [])
+    (hne : NoEmptyBy (RRule.origArgs (RRule.resolveW k a) r)) (hpr : Printable (strInOf (RRule.origArgs (RRule.resolveW k a) r)))
+    (hf : 0 ≤ (RRule.origArgs (RRule.resolveW k a) r).freq) (hw : r.wkst ≠ 0 ∨ k = 0)
+    (o : Opts) (hu : o.unfold = false) (hfs : o.forceset = false) (hc : o.compatible = false) (kw : Bool) :
+    ∃ pa dt, parseRfc (toStr (strInOf (RRule.origArgs (RRule.resolveW k a) r))) o kw = .ok (.rule pa (some dt) o.cache) ∧
+      RRule.constructW k (backArgs (RRule.origArgs (RRule.resolveW k a) r) pa) = .ok r :=
+  parse_toStr_constructs_same_rule_ambient k a r h hsp hne hpr hf hw o hu hfs hc kw
+
+/-- the excluded case `_wkst = 0 ∧ k ≠ 0` is real: WEEKLY, interval 2, BYDAY=TU,SU, explicit wkst=MO, ambient 6: the rebuilt
+    rule has week start 6 and is a different rule -/
+theorem ambient_wkst_counterexample :
+    (do let r ← RRule.constructW 6 ambientWitness
+        let o := RRule.origArgs (RRule.resolveW 6 ambientWitness) r
+        let r' ← RRule.constructW 6 (backArgs o (argsOf {} (strInOf o)))
+        pure (r.wkst, r'.wkst, decide (r' = r))) = .ok (0, 6, false) := RRuleStr.ambient_wkst_counterexample
+
 /-- a rule with most things in it: nth weekdays of both signs, negative list members, WKST, INTERVAL, UNTIL, year < 1000 -/
 def sample : StrIn :=
   { dtstart := some (999, 1, 2, 3, 4, 5), freq := 1, interval := 2, wkst := 6, count := none,
